@@ -15,7 +15,7 @@ far; `log i` — what its user has seen, with the virtual time of each callback.
 -/
 
 namespace C22
-open Replay
+open SubjReplay
 open Subj (Call)
 variable {α : Type}
 
@@ -91,7 +91,7 @@ whatever the rest of the run does; and a disposed subject raises `DisposedExcept
 theorem replay_dispose_stops {cfg : Cfg} {calls : List (Nat × Call α)} {st : St α} (h : Reach cfg calls st) :
     (∀ j, st.handle j = true → (doUnsub st j).adoStopped j = true) ∧
     (∀ i, st.adoStopped i = true → ∀ f, (steps cfg f st).log i = st.log i ∧ (steps cfg f st).adoStopped i = true) ∧
-    (st.disposed = true → ∀ n, emit cfg st n = Replay.raiseTo none Subj.disposedExn st) := by
+    (st.disposed = true → ∀ n, emit cfg st n = SubjReplay.raiseTo none Subj.disposedExn st) := by
   refine ⟨?_, fun i hs f => reach_silent h i hs f, fun hd n => by simp [emit, hd]⟩
   intro j hj
   have f := sadDispose_uframe { st with adoStopped := Subj.upd st.adoStopped j true, evs := st.evs ++ [EvR.unsub j] } j
@@ -99,7 +99,7 @@ theorem replay_dispose_stops {cfg : Cfg} {calls : List (Nat × Call α)} {st : S
   rw [f.2.2]
   simp
 
-/-- What the correspondence check executes (`Replay.run`, any fuel, any history) is reachable. -/
+/-- What the correspondence check executes (`SubjReplay.run`, any fuel, any history) is reachable. -/
 theorem run_reachable (cfg : Cfg) (fuel : Nat) (calls : List (Nat × Call α)) : Reach cfg calls (run cfg fuel calls) :=
   run_reach cfg fuel calls
 
